@@ -1,4 +1,149 @@
-/- Driver of the `router` world (stub: to be written by the owner of this world). -/
+/-
+  Driver of the `router` world: replays an ops file through `Mx.Router.step` and prints one
+  result line per op line.  Must stay import-free apart from Core/Driver modules.
+
+  header   W router users=<n> tokens=<k> template=<0|1> funds=<amount> foreign=<t1:t2:total:special,…|->
+  accounts 1..n are users, 100 is the owner, 200 the router, 900.. foreign pairs, 1000.. pairs
+  deployed by the router (in order of successful creation).
+-/
+import MxModel.Core.Router
 import MxModel.Driver.Proto
 
-def main : IO Unit := Mx.Proto.mainLoop () (fun s _ => (s, none))
+open Mx Mx.Router Mx.Proto
+
+namespace Mx.RouterDriver
+
+def OWNER : Nat := 100
+def ROUTER : Nat := 200
+
+structure DSt where
+  s : St
+  accts : List Nat
+  ntok : Nat
+
+def parseHop (w : String) : Option Hop :=
+  match w.splitOn ":" with
+  | [a, k, t, x] => do
+      let kind ← (match k with
+        | "in" => some HopKind.fixedIn
+        | "out" => some HopKind.fixedOut
+        | "bad" => some HopKind.bad
+        | _ => none)
+      pure ⟨← a.toNat?, kind, ← t.toNat?, ← x.toNat?⟩
+  | _ => none
+
+def parseFees (t sp : String) : Option (Option (Nat × Nat)) :=
+  if t = "-" then some none else do pure (some (← t.toNat?, ← sp.toNat?))
+
+def parseOp : List String → Option Op
+  | ["createPair", c, t1, t2, ad, t, sp] => do
+      pure (.createPair (← c.toNat?) (← t1.toNat?) (← t2.toNat?) (← ad.toNat?) (← parseFees t sp))
+  | ["removePair", c, t1, t2] => do pure (.removePair (← c.toNat?) (← t1.toNat?) (← t2.toNat?))
+  | ["setCreation", c, b] => do pure (.setCreation (← c.toNat?) (b = "1"))
+  | ["setTemplate", c] => do pure (.setTemplate (← c.toNat?))
+  | ["pause", c, a] => do pure (.pause (← c.toNat?) (← a.toNat?))
+  | ["resume", c, a] => do pure (.resume (← c.toNat?) (← a.toNat?))
+  | ["setFeeOn", c, a, t] => do pure (.setFeeOn (← c.toNat?) (← a.toNat?) (← t.toNat?))
+  | ["setFeeOff", c, a, i, t] => do
+      pure (.setFeeOff (← c.toNat?) (← a.toNat?) (← i.toNat?) (← t.toNat?))
+  | "multi" :: c :: t :: x :: hops => do
+      pure (.multi (← c.toNat?) (← t.toNat?) (← x.toNat?) (← hops.mapM parseHop))
+  | ["addInitial", u, a, a1, a2] => do
+      pure (.addInitial (← u.toNat?) (← a.toNat?) (← a1.toNat?) (← a2.toNat?))
+  | ["addLiq", u, a, a1, a2, m1, m2] => do
+      pure (.addLiq (← u.toNat?) (← a.toNat?) (← a1.toNat?) (← a2.toNat?) (← m1.toNat?) (← m2.toNat?))
+  | ["removeLiq", u, a, lp, m1, m2] => do
+      pure (.removeLiq (← u.toNat?) (← a.toNat?) (← lp.toNat?) (← m1.toNat?) (← m2.toNat?))
+  | ["swapIn", u, a, ti, x, to, m] => do
+      pure (.swapIn (← u.toNat?) (← a.toNat?) (← ti.toNat?) (← x.toNat?) (← to.toNat?) (← m.toNat?))
+  | ["swapOut", u, a, ti, mx, to, o] => do
+      pure (.swapOut (← u.toNat?) (← a.toNat?) (← ti.toNat?) (← mx.toNat?) (← to.toNat?) (← o.toNat?))
+  | _ => none
+
+def showStatus : Mx.Pair.Status → String
+  | .inactive => "inactive"
+  | .active => "active"
+  | .partialActive => "partial"
+
+def showBool (b : Bool) : String := if b then "1" else "0"
+
+def orDash (s : String) : String := if s.isEmpty then "-" else s
+
+def showPays (l : List (Tok × Nat)) : String :=
+  orDash (",".intercalate (l.map fun p => s!"{p.1}:{p.2}"))
+
+def showPair (s : St) (a : Addr) : String :=
+  match s.pairs a with
+  | none => s!"{a}:?"
+  | some p =>
+    let q := p.st
+    s!"{a}:{p.t1}:{p.t2}:{showStatus q.status}:{q.r1}:{q.r2}:{q.S}:{q.bal1}:{q.bal2}:{q.lpOwn}:{q.burn1}:{q.burn2}"
+
+def toks (k : Nat) : List Nat := (List.range k).map (· + 1)
+
+def showUser (d : DSt) (u : Nat) : String :=
+  let b := d.s.ubal u
+  s!"{u}:{joinNats ((toks d.ntok).map b)}:{orDash (joinNats (d.s.addrs.map b))}"
+
+def showState (d : DSt) : String :=
+  let s := d.s
+  let reg := orDash (",".intercalate (s.pairMap.map fun e => s!"{e.1.1}-{e.1.2}-{e.2}"))
+  s!"act={showBool s.active} cre={showBool s.creationEnabled} tpl={showBool s.templateSet} " ++
+  s!"reg={reg} rb={joinNats ((toks d.ntok).map s.rbal)} " ++
+  s!"pairs={orDash (";".intercalate (s.addrs.map (showPair s)))} " ++
+  s!"users={";".intercalate (d.accts.map (showUser d))}"
+
+def parseForeign (w : String) : Option PairRec :=
+  match (w.splitOn ":").mapM String.toNat? with
+  | some [t1, t2, total, special] => some (foreignPair t1 t2 total special)
+  | _ => none
+
+def initOf (ws : List String) : DSt :=
+  let n := (kvNat ws "users").getD 3
+  let k := (kvNat ws "tokens").getD 5
+  let template := (kvNat ws "template").getD 1 ≠ 0
+  let funds := (kvNat ws "funds").getD 0
+  let foreign := match kv ws "foreign" with
+    | some "-" => []
+    | some f => (f.splitOn ",").filterMap parseForeign
+    | none => []
+  let accts := (List.range n).map (· + 1) ++ [OWNER]
+  let bal : Addr → Nat → Nat := fun a t =>
+    if (a = OWNER ∨ (1 ≤ a ∧ a ≤ n)) ∧ 1 ≤ t ∧ t ≤ k then funds else 0
+  { s := Router.init OWNER ROUTER template foreign bal, accts := accts, ntok := k }
+
+def dirForIn (p : PairRec) (tokIn : Tok) : Option Mx.Pair.Dir :=
+  if tokIn = p.t1 then some .ab else if tokIn = p.t2 then some .ba else none
+
+def view (d : DSt) : List String → Option String
+  | ["getPair", a, b] => do pure (toString (getPair d.s.pairMap (← a.toNat?) (← b.toNat?)))
+  | ["amountOut", a, tokIn, x] => do
+      let p ← d.s.pairs (← a.toNat?)
+      let dir ← dirForIn p (← tokIn.toNat?)
+      let v ← Mx.Pair.viewAmountOut p.st dir (← x.toNat?)
+      pure (toString v)
+  | ["amountIn", a, tokWanted, x] => do
+      let p ← d.s.pairs (← a.toNat?)
+      let dir ← dirForIn p (← tokWanted.toNat?)
+      let v ← Mx.Pair.viewAmountIn p.st dir.flip (← x.toNat?)
+      pure (toString v)
+  | _ => none
+
+def handle (d : DSt) (line : String) : DSt × Option String :=
+  match words line with
+  | "W" :: rest => (initOf rest, some (" ".intercalate ("W" :: rest)))
+  | "O" :: n :: rest =>
+      match (parseOp rest).bind (step d.s) with
+      | some (s', o) =>
+          let d' := { d with s := s' }
+          (d', some s!"R {n} ok a={o.addr} p={showPays o.pays} v={o.v1},{o.v2},{o.v3} | {showState d'}")
+      | none => (d, some s!"R {n} err")
+  | "Q" :: n :: rest =>
+      match view d rest with
+      | some v => (d, some s!"V {n} ok {v}")
+      | none => (d, some s!"V {n} err")
+  | _ => (d, none)
+
+end Mx.RouterDriver
+
+def main : IO Unit := Mx.Proto.mainLoop (Mx.RouterDriver.initOf []) Mx.RouterDriver.handle
